@@ -4,7 +4,7 @@ from vstatic import terms as T
 from vstatic.terms import sym, Term, Atom, lift, pretty
 from vstatic.effects import summaries
 from vstatic.argbind import resolve_callee
-from .common import B, agree_ref, selfattr, RECORD_NO_INLINE, dominates, component_resets, resets_all_pairs, unordered_sweep, prog_functions
+from .common import B, agree_ref, selfattr, RECORD_NO_INLINE, dominates, component_resets, resets_all_pairs, unordered_sweep, prog_functions, inline_locals, family_nodes, new_helpers_of
 
 REF_COPY = '''
 def copy(self):
@@ -172,24 +172,27 @@ def run(ctx):
             call.args[0].id in fi.all_params() and call.args[0].id == 'seed'
         if not ok and call is not None and len(call.args) == 1:
             # a child generator seeded by a draw from the owner's generator: default_rng(int(<owner>.rng.integers(...)))
-            src = ast.unparse(call.args[0])
-            ok = '.rng.integers(' in src and not any(isinstance(x, ast.Call) and ast.unparse(x.func).endswith('time') for x in ast.walk(call.args[0]))
+            arg = inline_locals(fi.node, call.args[0])          # `s = int(rng.integers(..)); default_rng(s)`
+            src = ast.unparse(arg)
+            ok = '.rng.integers(' in src and not any(isinstance(x, ast.Call) and ast.unparse(x.func).endswith('time') for x in ast.walk(arg))
         ctx.ob('RNG', 'the generator is derived from the seed argument (or seeded by a draw from the owner\'s generator)', fi, ok,
                {'call': ast.unparse(call) if call is not None else ast.unparse(n)}, node=call or n)
     # (c) children receive separate draws from the owner's generator
     for short in ('voltage.antenna.Antenna.__init__', 'voltage.antenna.MultiAntennaArray.__init__'):
         fi = ctx.func(short)
         kids = []
-        for n in ast.walk(fi.node):
-            if isinstance(n, ast.Call):
-                rc = resolve_callee(prog, fi, n)
-                if rc is not None and 'seed' in rc[0].all_params() and rc[0].name == '__init__':
-                    kids.append(n)
+        for owner in [fi] + list(new_helpers_of(ctx, fi)):          # constructions may live in an extracted helper
+            for n in ast.walk(owner.node):
+                if isinstance(n, ast.Call):
+                    rc = resolve_callee(prog, owner, n)
+                    if rc is not None and 'seed' in rc[0].all_params() and rc[0].name == '__init__':
+                        kids.append((owner, n))
         ctx.require(kids, f'{short}: no child constructions with a seed parameter found')
-        for n in kids:
+        for owner, n in kids:
             kw = [k for k in n.keywords if k.arg == 'seed']
-            src = ast.unparse(kw[0].value) if kw else None
-            ok = bool(kw) and isinstance(kw[0].value, ast.Call) and 'self.rng.integers' in src
+            val = inline_locals(owner.node, kw[0].value) if kw else None
+            src = ast.unparse(val) if kw else None
+            ok = bool(kw) and isinstance(val, ast.Call) and 'self.rng.integers' in src
             ctx.ob('RNG', 'each child stream/antenna is seeded by its own draw from the owner\'s generator', fi, ok,
                    {'seed_argument': src}, node=n, construct=ast.unparse(n.func) + '(seed=...)')
     # (d) package-internal calls that omit `seed` of a function that draws immediately
